@@ -966,6 +966,93 @@ func vC03ProbeNegativeStart(t testing.TB, res *vResult) {
 	res.Note(fmt.Sprintf("probe NewReader(-1, committed) on log {0} with hw=-1: delivered [%s] end=%q (model precondition 0 <= start; partition.getStartOffset clamps negative offsets to 0)", vC03Ranges(offs), end))
 }
 
+// vC03AcrossTruncation: a committed reader that was created BEYOND the high watermark (it parks and resumes at the HW it saw
+// + 1, so the offsets it delivers are not "requested start + number delivered") keeps reading while the uncommitted tail of
+// the log is truncated under it (what a follower's reconciliation does: Truncate(HW + 1 ...), the reader's segment is
+// replaced and the reader re-created from what it has delivered). C03: every committed message after the HW it saw, once,
+// in order, nothing beyond the HW - whatever it had delivered before the truncation.
+func vC03AcrossTruncation(t testing.TB, res *vResult) {
+	readNext := func(r *Reader, d time.Duration) (int64, error) {
+		ctx, cancel := context.WithTimeout(context.Background(), d)
+		defer cancel()
+		headers := make([]byte, 28)
+		_, off, _, _, err := r.ReadMessage(ctx, headers)
+		return off, err
+	}
+	fails := 0
+	for _, begin := range []string{"begin 1048576 0", "begin 100 0"} {
+		for _, n := range []int{8, 12} {
+			for hw0 := int64(0); hw0 <= 2; hw0++ {
+				for _, start := range []int64{hw0 + 2, 100} {
+					for before := 1; before <= 3; before++ {
+						for _, cut := range []int64{0, 1} { // truncate at hw1+1 (the whole uncommitted tail) / hw1+2 (keep one uncommitted)
+							if fails >= 3 {
+								return
+							}
+							hw1 := int64(n) - 3
+							line := fmt.Sprintf("reader-across-truncation %s n=%d hw=%d reader-start=%d hw:=%d read=%d truncate=%d", begin, n, hw0, start, hw1, before, hw1+1+cut)
+							res.Count(line, true)
+							res.Dist("reader-across-truncation")
+							v := &vLogImpl{t: t}
+							v.exec(begin)
+							for i := 0; i < n; i++ {
+								v.l.Append([]*Message{{MagicByte: 1, Timestamp: int64(i + 1), Value: vC03Val(int64(i), 0), Offset: -1}})
+							}
+							v.l.SetHighWatermark(hw0)
+							r, err := v.l.NewReader(start, false)
+							if err != nil {
+								res.Fail(vFailure{Kind: "disagreement", Case: []string{line}, Detail: "NewReader: " + err.Error()})
+								v.close()
+								fails++
+								continue
+							}
+							v.l.SetHighWatermark(hw1)
+							var got []int64
+							bad := ""
+							for i := 0; i < before && bad == ""; i++ {
+								off, err := readNext(r, 3*time.Second)
+								if err != nil {
+									bad = fmt.Sprintf("read %d before the truncation: %v", i, err)
+								}
+								got = append(got, off)
+							}
+							if bad == "" {
+								if err := v.l.Truncate(hw1 + 1 + cut); err != nil {
+									bad = "Truncate: " + err.Error()
+								}
+							}
+							for bad == "" && int64(len(got)) < hw1-hw0 {
+								off, err := readNext(r, 2*time.Second)
+								if err != nil {
+									bad = fmt.Sprintf("committed message %d was not delivered after the truncation (HW %d): %v", hw0+1+int64(len(got)), hw1, err)
+									break
+								}
+								got = append(got, off)
+							}
+							if bad == "" {
+								// nothing beyond the HW
+								if off, err := readNext(r, 40*time.Millisecond); err == nil {
+									bad = fmt.Sprintf("offset %d delivered although the HW is %d", off, hw1)
+								}
+							}
+							for i, off := range got {
+								if bad == "" && off != hw0+1+int64(i) {
+									bad = fmt.Sprintf("delivered %v: position %d should be offset %d (every committed message after HW %d once, in order)", got, i, hw0+1+int64(i), hw0)
+								}
+							}
+							v.close()
+							if bad != "" {
+								fails++
+								res.Fail(vFailure{Kind: "spec", Case: []string{line}, Impl: []string{fmt.Sprint(got)}, Detail: bad, Tag: "committed-reader-across-truncation"})
+							}
+						}
+					}
+				}
+			}
+		}
+	}
+}
+
 // vC03ReaderCreationRace: a committed reader is CREATED while the high watermark advances (for the last time): whatever the
 // reader sampled while it was being set up, it must deliver everything up to the final HW - nobody will move the HW again
 // to wake it. Many short trials; the two calls are released together.
@@ -1377,6 +1464,7 @@ func TestVerifC03(t *testing.T) {
 	vC03ConcurrentHW(t, res, rnd)
 	vC03SegmentReplaced(t, res, rnd)
 	vC03ReaderCreationRace(t, res, rnd)
+	vC03AcrossTruncation(t, res)
 
 	// (d) free-running stress
 	total := 5 * time.Second
